@@ -19,7 +19,7 @@ from tfl import (Buffer, BuiltinOperator, BuiltinOptions, Model, Operator, Opera
                  QuantizationParameters, SubGraph, Tensor, TensorType)
 
 TT = {"float32": 0, "float16": 1, "int32": 2, "uint8": 3, "int64": 4, "string": 5, "bool": 6, "int16": 7,
-      "int8": 9}
+      "int8": 9, "resource": 13}
 NPT = {"float32": np.float32, "int32": np.int32, "uint8": np.uint8, "int64": np.int64, "int16": np.int16,
        "int8": np.int8, "bool": np.bool_, "float16": np.float16}
 BO = {k: v for k, v in vars(BuiltinOperator.BuiltinOperator).items() if not k.startswith("_")}
@@ -44,6 +44,10 @@ OPT_OF = {
     "SPACE_TO_DEPTH": "SpaceToDepthOptions", "DEPTH_TO_SPACE": "DepthToSpaceOptions", "SQUARED_DIFFERENCE": "SquaredDifferenceOptions",
     "MIRROR_PAD": "MirrorPadOptions", "GATHER": "GatherOptions", "L2_NORMALIZATION": "L2NormOptions", "LOG": None,
     "CAST": "CastOptions", "NEG": "NegOptions", "BATCH_MATMUL": "BatchMatMulOptions",
+    # control flow: the options hold subgraph indices (see Net.subnets)
+    "WHILE": "WhileOptions", "IF": "IfOptions", "CALL_ONCE": "CallOnceOptions",
+    "LESS": "LessOptions", "GREATER": "GreaterOptions", "EQUAL": "EqualOptions",
+    "VAR_HANDLE": "VarHandleOptions", "ASSIGN_VARIABLE": "AssignVariableOptions", "READ_VARIABLE": "ReadVariableOptions",
 }
 VERSION = {"CONV_2D": 3, "DEPTHWISE_CONV_2D": 3, "FULLY_CONNECTED": 4, "MAX_POOL_2D": 2, "AVERAGE_POOL_2D": 2, "ADD": 2,
            "SUB": 2, "MUL": 2, "CONCATENATION": 2, "PAD": 2, "LOGISTIC": 2, "TANH": 2, "RELU": 2, "RELU6": 2,
@@ -67,6 +71,10 @@ class Net:
         self.inputs = []
         self.outputs = []
         self.desc = []
+        # further subgraphs of the model (each a Net with its own tensors/ops/inputs/outputs); this Net is subgraph 0,
+        # subnets[k] is subgraph k+1.  Buffers and operator codes are global to the model.  sgname = subgraph name.
+        self.subnets = []
+        self.sgname = "main"
 
     def tensor(self, shape, dtype="int8", scale=None, zp=None, data=None, name=None, qdim=0):
         if name is None:
@@ -96,15 +104,19 @@ class Net:
     def build(self):
         b = flatbuffers.Builder(1024)
         # buffers: 0 is the empty sentinel
+        nets = [self] + list(self.subnets)     # subgraph 0 is self; buffers and operator codes are model-wide
         buf_data = [None]
-        tens_buf = []
-        for t in self.tensors:
-            if t.data is not None:
-                buf_data.append(t.data.tobytes())
-                tens_buf.append(len(buf_data) - 1)
-            else:
-                buf_data.append(None)  # one (empty) buffer per tensor like the TFLite converter
-                tens_buf.append(len(buf_data) - 1)
+        tens_bufs = []
+        for net in nets:
+            tens_buf = []
+            for t in net.tensors:
+                if t.data is not None:
+                    buf_data.append(t.data.tobytes())
+                    tens_buf.append(len(buf_data) - 1)
+                else:
+                    buf_data.append(None)  # one (empty) buffer per tensor like the TFLite converter
+                    tens_buf.append(len(buf_data) - 1)
+            tens_bufs.append(tens_buf)
         buf_offs = []
         for d in buf_data:
             dv = None
@@ -120,7 +132,7 @@ class Net:
         # operator codes
         codes = []
         code_idx = {}
-        for o in self.ops:
+        for o in [o for net in nets for o in net.ops]:
             key = (o["kind"], o["custom_code"], o["version"])
             if key not in code_idx:
                 code_idx[key] = len(codes)
@@ -136,61 +148,6 @@ class Net:
                 OperatorCode.OperatorCodeAddCustomCode(b, ccs)
             OperatorCode.OperatorCodeAddVersion(b, ver)
             code_offs.append(OperatorCode.OperatorCodeEnd(b))
-        # tensors
-        tens_offs = []
-        for t, bi in zip(self.tensors, tens_buf):
-            nm = b.CreateString(t.name)
-            shp = b.CreateNumpyVector(np.array(t.shape, dtype=np.int32)) if t.shape is not None else None
-            q = None
-            if t.scale is not None:
-                sc = np.atleast_1d(np.array(t.scale, dtype=np.float32))
-                zp = np.atleast_1d(np.array(t.zp if t.zp is not None else 0, dtype=np.int64))
-                scv = b.CreateNumpyVector(sc)
-                zpv = b.CreateNumpyVector(zp)
-                QuantizationParameters.QuantizationParametersStart(b)
-                QuantizationParameters.QuantizationParametersAddScale(b, scv)
-                QuantizationParameters.QuantizationParametersAddZeroPoint(b, zpv)
-                QuantizationParameters.QuantizationParametersAddQuantizedDimension(b, t.qdim)
-                q = QuantizationParameters.QuantizationParametersEnd(b)
-            Tensor.TensorStart(b)
-            if shp is not None:
-                Tensor.TensorAddShape(b, shp)
-            Tensor.TensorAddType(b, TT[t.dtype])
-            Tensor.TensorAddBuffer(b, bi)
-            Tensor.TensorAddName(b, nm)
-            if q is not None:
-                Tensor.TensorAddQuantization(b, q)
-            tens_offs.append(Tensor.TensorEnd(b))
-        # operators
-        op_offs = []
-        for o in self.ops:
-            iv = b.CreateNumpyVector(np.array([(-1 if t is None else t.idx) for t in o["inputs"]], dtype=np.int32))
-            ov = b.CreateNumpyVector(np.array([t.idx for t in o["outputs"]], dtype=np.int32))
-            optname = OPT_OF.get(o["kind"])
-            optoff = None
-            if optname:
-                mod = importlib.import_module("tfl." + optname)
-                vecs = {}
-                for k, v in o["opts"].items():
-                    if isinstance(v, (list, tuple)):
-                        vecs[k] = b.CreateNumpyVector(np.array(v, dtype=np.int32))
-                getattr(mod, optname + "Start")(b)
-                for k, v in o["opts"].items():
-                    getattr(mod, optname + "Add" + k)(b, vecs[k] if k in vecs else v)
-                optoff = getattr(mod, optname + "End")(b)
-            co = None
-            if o["custom_options"] is not None:
-                co = b.CreateByteVector(bytes(o["custom_options"]))
-            Operator.OperatorStart(b)
-            Operator.OperatorAddOpcodeIndex(b, code_idx[(o["kind"], o["custom_code"], o["version"])])
-            Operator.OperatorAddInputs(b, iv)
-            Operator.OperatorAddOutputs(b, ov)
-            if optoff is not None:
-                Operator.OperatorAddBuiltinOptionsType(b, BOPT[optname])
-                Operator.OperatorAddBuiltinOptions(b, optoff)
-            if co is not None:
-                Operator.OperatorAddCustomOptions(b, co)
-            op_offs.append(Operator.OperatorEnd(b))
 
         def vec(start, offs):
             start(b, len(offs))
@@ -198,19 +155,79 @@ class Net:
                 b.PrependUOffsetTRelative(o)
             return b.EndVector()
 
-        tv = vec(SubGraph.SubGraphStartTensorsVector, tens_offs)
-        iv = b.CreateNumpyVector(np.array([t.idx for t in self.inputs], dtype=np.int32))
-        ov = b.CreateNumpyVector(np.array([t.idx for t in self.outputs], dtype=np.int32))
-        opv = vec(SubGraph.SubGraphStartOperatorsVector, op_offs)
-        sgname = b.CreateString("main")
-        SubGraph.SubGraphStart(b)
-        SubGraph.SubGraphAddTensors(b, tv)
-        SubGraph.SubGraphAddInputs(b, iv)
-        SubGraph.SubGraphAddOutputs(b, ov)
-        SubGraph.SubGraphAddOperators(b, opv)
-        SubGraph.SubGraphAddName(b, sgname)
-        sg = SubGraph.SubGraphEnd(b)
-        sgv = vec(Model.ModelStartSubgraphsVector, [sg])
+        sg_offs = []
+        for net, tens_buf in zip(nets, tens_bufs):
+            # tensors
+            tens_offs = []
+            for t, bi in zip(net.tensors, tens_buf):
+                nm = b.CreateString(t.name)
+                shp = b.CreateNumpyVector(np.array(t.shape, dtype=np.int32)) if t.shape is not None else None
+                q = None
+                if t.scale is not None:
+                    sc = np.atleast_1d(np.array(t.scale, dtype=np.float32))
+                    zp = np.atleast_1d(np.array(t.zp if t.zp is not None else 0, dtype=np.int64))
+                    scv = b.CreateNumpyVector(sc)
+                    zpv = b.CreateNumpyVector(zp)
+                    QuantizationParameters.QuantizationParametersStart(b)
+                    QuantizationParameters.QuantizationParametersAddScale(b, scv)
+                    QuantizationParameters.QuantizationParametersAddZeroPoint(b, zpv)
+                    QuantizationParameters.QuantizationParametersAddQuantizedDimension(b, t.qdim)
+                    q = QuantizationParameters.QuantizationParametersEnd(b)
+                Tensor.TensorStart(b)
+                if shp is not None:
+                    Tensor.TensorAddShape(b, shp)
+                Tensor.TensorAddType(b, TT[t.dtype])
+                Tensor.TensorAddBuffer(b, bi)
+                Tensor.TensorAddName(b, nm)
+                if q is not None:
+                    Tensor.TensorAddQuantization(b, q)
+                tens_offs.append(Tensor.TensorEnd(b))
+            # operators
+            op_offs = []
+            for o in net.ops:
+                iv = b.CreateNumpyVector(np.array([(-1 if t is None else t.idx) for t in o["inputs"]], dtype=np.int32))
+                ov = b.CreateNumpyVector(np.array([t.idx for t in o["outputs"]], dtype=np.int32))
+                optname = OPT_OF.get(o["kind"])
+                optoff = None
+                if optname:
+                    mod = importlib.import_module("tfl." + optname)
+                    vecs = {}
+                    for k, v in o["opts"].items():
+                        if isinstance(v, (list, tuple)):
+                            vecs[k] = b.CreateNumpyVector(np.array(v, dtype=np.int32))
+                        elif isinstance(v, str):
+                            vecs[k] = b.CreateString(v)
+                    getattr(mod, optname + "Start")(b)
+                    for k, v in o["opts"].items():
+                        getattr(mod, optname + "Add" + k)(b, vecs[k] if k in vecs else v)
+                    optoff = getattr(mod, optname + "End")(b)
+                co = None
+                if o["custom_options"] is not None:
+                    co = b.CreateByteVector(bytes(o["custom_options"]))
+                Operator.OperatorStart(b)
+                Operator.OperatorAddOpcodeIndex(b, code_idx[(o["kind"], o["custom_code"], o["version"])])
+                Operator.OperatorAddInputs(b, iv)
+                Operator.OperatorAddOutputs(b, ov)
+                if optoff is not None:
+                    Operator.OperatorAddBuiltinOptionsType(b, BOPT[optname])
+                    Operator.OperatorAddBuiltinOptions(b, optoff)
+                if co is not None:
+                    Operator.OperatorAddCustomOptions(b, co)
+                op_offs.append(Operator.OperatorEnd(b))
+
+            tv = vec(SubGraph.SubGraphStartTensorsVector, tens_offs)
+            iv = b.CreateNumpyVector(np.array([t.idx for t in net.inputs], dtype=np.int32))
+            ov = b.CreateNumpyVector(np.array([t.idx for t in net.outputs], dtype=np.int32))
+            opv = vec(SubGraph.SubGraphStartOperatorsVector, op_offs)
+            sgname = b.CreateString(net.sgname if net is not self else "main")
+            SubGraph.SubGraphStart(b)
+            SubGraph.SubGraphAddTensors(b, tv)
+            SubGraph.SubGraphAddInputs(b, iv)
+            SubGraph.SubGraphAddOutputs(b, ov)
+            SubGraph.SubGraphAddOperators(b, opv)
+            SubGraph.SubGraphAddName(b, sgname)
+            sg_offs.append(SubGraph.SubGraphEnd(b))
+        sgv = vec(Model.ModelStartSubgraphsVector, sg_offs)
         cv = vec(Model.ModelStartOperatorCodesVector, code_offs)
         bv = vec(Model.ModelStartBuffersVector, buf_offs)
         desc = b.CreateString("verif netgen " + self.name)
@@ -537,7 +554,7 @@ def fam_conv_chain(rng, big=False):
 
 
 SINGLE_KINDS = ["conv", "dw", "fc", "maxpool", "avgpool", "add", "sub", "mul", "logistic", "tanh", "lrelu", "hswish",
-                "softmax", "mean", "resize_bilinear", "resize_nearest", "quantize", "tconv", "reshape", "pad",
+                "softmax", "mean", "resize_bilinear", "resize_nearest", "quantize", "tconv", "reshape", "pad", "pad_bc",
                 "slice", "concat", "minimum", "maximum", "relu", "abs", "add_bcast", "mul_scalar", "transpose"]
 
 
@@ -545,9 +562,14 @@ def fam_single_op(rng, kind=None):
     """one operator of a given (or random) kind with corner shapes"""
     net = Net("single")
     only8 = bool(kind) and kind.endswith("@8")      # "single:conv@8": 8-bit data types only
+    onlyu8 = bool(kind) and kind.endswith("@u8")    # "single:concat@u8": uint8 (legacy quantisation) only
     if only8:
         kind = kind[:-2]
+    if onlyu8:
+        kind = kind[:-3]
     dt = _dtype(rng, allow16=not only8)
+    if onlyu8:
+        dt = "uint8"
     if kind in ("hswish",):
         dt = rng.choice(["int8", "uint8"])
     kind = kind or rng.choice(SINGLE_KINDS)
@@ -618,6 +640,9 @@ def fam_single_op(rng, kind=None):
         elif kind == "pad":
             p = pad(net, rng, x, [[0, 0], [rng.randrange(0, 3), rng.randrange(0, 3)], [rng.randrange(0, 3), rng.randrange(0, 3)], [0, 0]])
             y = conv2d(net, rng, p, 8, (3, 3), (1, 1), (1, 1), "VALID") if min(p.shape[1:3]) >= 3 and rng.random() < 0.7 else p
+        elif kind == "pad_bc":     # batch and channel padded by one operator (split into two by the graph optimiser)
+            t = conv2d(net, rng, x, 8, (1, 1)) if rng.random() < 0.7 else x
+            y = pad(net, rng, t, [[rng.randrange(0, 2), 1], [0, 0], [0, 0], [rng.choice([1, 4, 8]), rng.choice([0, 4])]])
         elif kind == "slice":
             if h < 2:
                 return None
@@ -626,8 +651,9 @@ def fam_single_op(rng, kind=None):
             y = conv2d(net, rng, y, 4, (1, 1)) if rng.random() < 0.5 else y
         elif kind == "concat":
             b = _inp(net, rng, [1, h, w, rng.choice([1, 8, 16])], dt)
-            b.scale, b.zp = x.scale, x.zp
-            y = concat(net, rng, [x, b], 3, requant=rng.random() < 0.3)
+            if not (dt == "uint8" and rng.random() < 0.5):      # uint8: the reference kernel rescales differing inputs
+                b.scale, b.zp = x.scale, x.zp
+            y = concat(net, rng, [x, b], 3, requant=rng.random() < (0.6 if onlyu8 else 0.3))
     net.output(y)
     return net
 
@@ -810,6 +836,41 @@ def fam_lut_heavy(rng):
     return net
 
 
+def fam_lut_mixed(rng):
+    """8-bit tables in several LUT slots, then a wide (int16, 2048-byte) table, then one of the earlier 8-bit tables
+    again with identical values: slot bookkeeping across tables of different sizes (C03, C14)"""
+    net = Net("lut_mixed")
+    h, w, c = rng.randrange(2, 10), rng.randrange(2, 10), rng.choice([4, 8, 16])
+    x = net.input([1, h, w, c], "int8", 1.0 / 64, 0, name="input0")
+    Q = {"TANH": (1.0 / 128, 0), "LOGISTIC": (1.0 / 256, -128)}
+    t = x
+    seen = []            # (kind, input quantisation) of the 8-bit table operators so far
+    for _ in range(rng.randrange(3, 6)):
+        kind = rng.choice(["TANH", "LOGISTIC", "TANH", "LOGISTIC", "LEAKY_RELU"])
+        seen.append((kind, t.scale, t.zp))
+        if kind == "LEAKY_RELU":
+            t = unary(net, rng, kind, t, dict(Alpha=float(np.float32(0.125))), out_scale=1.0 / 64, out_zp=0)
+        else:
+            t = unary(net, rng, kind, t)
+    for _ in range(rng.randrange(1, 3)):
+        t16 = net.tensor(list(t.shape), "int16", 1.0 / 4096, 0)
+        net.op("QUANTIZE", [t], [t16], {})
+        wide = rng.choice(["EXP", "EXP", "TANH", "LOGISTIC"])
+        t16 = unary(net, rng, wide, t16, out_scale=(1.0 / 8192 if wide == "EXP" else None), out_zp=0)
+        kind, sc, zp = rng.choice(seen)          # come back with the quantisation an earlier table operator saw
+        t = net.tensor(list(t.shape), "int8", sc, zp)
+        net.op("QUANTIZE", [t16], [t], {})
+        for _ in range(rng.randrange(1, 3)):
+            seen.append((kind, t.scale, t.zp))
+            if kind == "LEAKY_RELU":
+                t = unary(net, rng, kind, t, dict(Alpha=float(np.float32(0.125))), out_scale=1.0 / 64, out_zp=0)
+            else:
+                t = unary(net, rng, kind, t)
+            kind = rng.choice(["TANH", "LOGISTIC"])
+    net.output(t)
+    return net
+
+
 def fam_weights_heavy(rng):
     """convolutions / fully connected layers with many weights: weight buffering, double buffering, depth slicing,
     two-core weight interleaving"""
@@ -835,7 +896,11 @@ def fam_weights_heavy(rng):
 def cpu_join(net, rng, xs):
     """a CPU-only operator reading several tensors (keeps them alive across what lies between)"""
     y = net.tensor(list(xs[0].shape), xs[0].dtype, xs[0].scale, xs[0].zp)
-    net.op("CUSTOM", list(xs), [y], custom_code=rng.choice(["VerifJoinOp", "VerifThirdPartyOp"]), custom_options=b"join")
+    ins = list(xs)
+    if rng.random() < 0.5 and len(xs[0].shape) == 4:
+        # a constant operand listed before (some of) the activation operands, as DIV(const, x) or a vendor operator has
+        ins.insert(rng.randrange(0, len(ins)), const_like(net, rng, [1, 1, 1, xs[0].shape[-1]], xs[0].dtype))
+    net.op("CUSTOM", ins, [y], custom_code=rng.choice(["VerifJoinOp", "VerifThirdPartyOp"]), custom_options=b"join")
     return y
 
 
@@ -906,10 +971,185 @@ def fam_multi_custom(rng):
     return net
 
 
+# kinds drawn at random (all accepted by Vela); "if_npu" (NPU-supported operators inside the IF branches) is only
+# generated on request ("multi_subgraph:if_npu"): Vela never allocates the tensors of IF branch subgraphs and dies
+MULTI_KINDS = ["while", "while", "while_fm", "if", "call_once", "while_call_once", "if_call_once", "while2", "if_same"]
+
+
+def _ms_custom(net, rng, x, code):
+    """third-party custom operator with one or two constant table operands; keeps shape / type / quantisation"""
+    y = net.tensor(list(x.shape), x.dtype, x.scale, x.zp)
+    ins = [x]
+    for _ in range(rng.choice([1, 1, 2])):
+        n = rng.choice([1, 3, 6, 16, 33])
+        cdt = rng.choice(["int32", "int8", "int16"])
+        data = np.random.RandomState(rng.getrandbits(31)).randint(-100, 100, n) | 1       # never all zero
+        ins.append(net.tensor([n], cdt, None, None, data, name="%s_table%d" % (code, len(net.tensors))))
+    net.op("CUSTOM", ins, [y], custom_code=code, custom_options=code.encode()[:5])
+    return y
+
+
+def _ms_segment(net, rng, t, tag, cpu, sc, zp, npu=True):
+    """1..2 NPU-supported operators (none when npu is false), optionally followed by a CPU custom operator with
+    constants; the result has the shape of `t` and the quantisation (sc, zp) of the loop-carried / branch-result tensor"""
+    c = t.shape[-1]
+    if not npu:
+        for k in range(rng.randrange(1, 3)):
+            t = _ms_custom(net, rng, t, "Vendor%s%s" % (tag, "" if k == 0 else "B"))
+        return t
+    for _ in range(rng.randrange(1, 3)):
+        ch = rng.choice(["conv", "conv", "dw", "add_const", "act"])
+        if ch == "conv":
+            t = conv2d(net, rng, t, c, (rng.choice([1, 3]),) * 2, act=rng.choice(["NONE", "RELU"]))
+        elif ch == "dw":
+            t = depthwise(net, rng, t, (3, 3))
+        elif ch == "add_const":
+            t = elementwise(net, rng, "ADD", t, const_like(net, rng, [1, 1, 1, c], t.dtype), out_shape=list(t.shape))
+        else:
+            t = unary(net, rng, "LEAKY_RELU", t, dict(Alpha=float(np.float32(0.1))))
+        t.scale, t.zp = sc, zp
+    if cpu:
+        t = _ms_custom(net, rng, t, "Vendor" + tag)
+    return t
+
+
+def fam_multi_subgraph(rng, kind=None):
+    """models with 2..4 subgraphs (WHILE cond/body, IF then/else, CALL_ONCE init): NPU and CPU operators with constant
+    operands in every subgraph; subgraph indices inside the control-flow options; model-wide buffer table (C11)"""
+    kind = kind or rng.choice(MULTI_KINDS)
+    net = Net("multi_subgraph_" + kind)
+    dt = rng.choice(["int8", "int8", "uint8"])
+    h, w, c = rng.randrange(2, 12), rng.randrange(2, 12), rng.choice([4, 8, 16])
+    shape = [1, h, w, c]
+    x = _inp(net, rng, shape, dt)
+    sc, zp = _rs(rng, 0.01, 0.2), _zp(rng, dt)     # quantisation of the loop-carried / branch-result feature map
+    subs = []                                       # (Net, [(operator dict, option field)]) ; indices fixed at the end
+
+    def sub(name):
+        s = Net(name)
+        s.sgname = name
+        subs.append(s)
+        return s
+
+    refs = []                                       # (operator dict, option key, Net referred to)
+
+    def ctl(n, kindop, ins, outs, **targets):
+        n.op(kindop, ins, outs, {})
+        for k, s in targets.items():
+            refs.append((n.ops[-1], k, s))
+
+    def fm(n, name, inp=False):
+        return (n.input if inp else n.tensor)(shape, dt, sc, zp, name=name)
+
+    def cond_sg(name, counter):
+        s = sub(name)
+        if counter:
+            i = s.input([1], "int32", None, None, name=name + "_i")
+            fm(s, name + "_v", inp=True)              # carried feature map: not read by the condition
+            lim = s.tensor([1], "int32", None, None, [rng.randrange(1, 50)], name=name + "_limit")
+            r = s.tensor([1], "bool", name=name + "_res")
+            s.op("LESS", [i, lim], [r], {})
+        else:
+            v = fm(s, name + "_v", inp=True)
+            lim = s.tensor([1], dt, sc, zp, [rng.randrange(1, 100)], name=name + "_limit")
+            r = s.tensor(shape, "bool", name=name + "_res")
+            s.op(rng.choice(["LESS", "GREATER"]), [v, lim], [r], {})
+        s.output(r)
+        return s
+
+    def body_sg(name, counter, cpu):
+        s = sub(name)
+        outs = []
+        if counter:
+            i = s.input([1], "int32", None, None, name=name + "_i")
+            one = s.tensor([1], "int32", None, None, [rng.randrange(1, 4)], name=name + "_step")
+            i2 = s.tensor([1], "int32", name=name + "_inext")
+            s.op("ADD", [i, one], [i2], dict(FusedActivationFunction=0))
+            outs.append(i2)
+        v = fm(s, name + "_v", inp=True)
+        outs.append(_ms_segment(s, rng, v, name.title().replace("_", ""), cpu, sc, zp))
+        s.output(*outs)
+        return s
+
+    def branch_sg(name, cpu, trivial=False):
+        s = sub(name)
+        v = fm(s, name + "_v", inp=True)
+        if trivial:
+            y = _ms_custom(s, rng, v, "VendorElse")
+        else:
+            y = _ms_segment(s, rng, v, name.title().replace("_", ""), cpu, sc, zp, npu=(kind == "if_npu"))
+        s.output(y)
+        return s
+
+    def init_sg(name, shared):
+        s = sub(name)
+        r = s.tensor([], "resource", name=name + "_handle")
+        s.op("VAR_HANDLE", [], [r], dict(Container="", SharedName=shared))
+        val = const_like(s, rng, [1, 1, 1, c], dt, sc, zp)
+        val.name = name + "_value"
+        s.op("ASSIGN_VARIABLE", [r, val], [], {})
+        return s
+
+    cpu_main = rng.random() < 0.7
+    t = x
+    if rng.random() < 0.8:
+        t = _ms_segment(net, rng, t, "Pre", False, sc, zp)
+    else:
+        t.scale, t.zp = sc, zp
+    if "call_once" in kind:
+        shared = "verif_var%d" % rng.randrange(100)
+        ini = init_sg("init", shared)
+        ctl(net, "CALL_ONCE", [], [], InitSubgraphIndex=ini)
+        r = net.tensor([], "resource", name="handle")
+        net.op("VAR_HANDLE", [], [r], dict(Container="", SharedName=shared))
+        v = net.tensor([1, 1, 1, c], dt, sc, zp, name="var_value")
+        net.op("READ_VARIABLE", [r], [v], {})
+        t = elementwise(net, rng, "ADD", t, v, out_shape=shape)
+        t.scale, t.zp = sc, zp
+    if kind.startswith("while"):
+        counter = kind != "while_fm"
+        nloops = 2 if kind == "while2" else 1
+        cnd = cond_sg("while_cond", counter)
+        for k in range(nloops):
+            bdy = body_sg("while_body%s" % ("" if k == 0 else str(k + 1)), counter, rng.random() < 0.7)
+            y = fm(net, "loop%d_out" % k)
+            ins, outs = [t], [y]
+            if counter:
+                i0 = net.tensor([1], "int32", None, None, [0], name="loop%d_i0" % k)
+                ie = net.tensor([1], "int32", name="loop%d_iend" % k)
+                ins, outs = [i0, t], [ie, y]
+            ctl(net, "WHILE", ins, outs, CondSubgraphIndex=cnd, BodySubgraphIndex=bdy)
+            t = y
+            if k + 1 < nloops and rng.random() < 0.5:
+                t = _ms_segment(net, rng, t, "Mid", False, sc, zp)
+    elif kind.startswith("if"):
+        p = net.input([1], "bool", name="pred")
+        th = branch_sg("if_then", rng.random() < 0.7)
+        el = th if kind == "if_same" else branch_sg("if_else", rng.random() < 0.5, trivial=rng.random() < 0.3)
+        y = fm(net, "if_out")
+        ctl(net, "IF", [p, t], [y], ThenSubgraphIndex=th, ElseSubgraphIndex=el)
+        t = y
+    if cpu_main:
+        t = _ms_custom(net, rng, t, "VendorPost")
+    if rng.random() < 0.5:
+        t = _ms_segment(net, rng, t, "Post", False, sc, zp)
+    net.output(t)
+    # the further subgraphs in random order; fix the indices in the options
+    rng.shuffle(subs)
+    net.subnets = subs
+    for o, k, s in refs:
+        o["opts"][k] = 1 + subs.index(s)
+    for s in subs:
+        net.desc.append("|%s:" % s.sgname)
+        net.desc += s.desc
+    return net
+
+
 FAMILIES = {
     "conv_chain": fam_conv_chain, "conv_chain_big": lambda rng: fam_conv_chain(rng, big=True), "single": fam_single_op,
-    "diamond": fam_diamond, "mixed_cpu": fam_mixed_cpu, "unsupported": fam_unsupported, "lut_heavy": fam_lut_heavy, "weights_heavy": fam_weights_heavy, "ew_dag": fam_ew_dag, "multi_custom": fam_multi_custom,
+    "diamond": fam_diamond, "mixed_cpu": fam_mixed_cpu, "unsupported": fam_unsupported, "lut_heavy": fam_lut_heavy, "lut_mixed": fam_lut_mixed, "weights_heavy": fam_weights_heavy, "ew_dag": fam_ew_dag, "multi_custom": fam_multi_custom,
 }
+FAMILIES["multi_subgraph"] = fam_multi_subgraph
 
 
 def generate(family, seed):
